@@ -9,6 +9,7 @@ PROPS['C08'] = dict(
     floor=12,
     assumptions=['channel state compared: program, bank MSB/LSB, volume, expression, pan, bend, bend range, sustain/soft pedal, RPN/NRPN selection'],
     stages=[dict(name='seek', variant='asan', harness='c08_seek.cpp', quick=8000, thorough=160000),
+            dict(name='audio', variant='asan', harness='c08_seek.cpp', quick=3000, thorough=40000, budget=60),
             dict(name='memcheck', variant='plain-d', harness='c08_seek.cpp', quick=1000, thorough=20000, budget=150, wall=2400, **{'as': 'seek'},
                  wrapper=['valgrind', '-q', '--error-exitcode=79', '--exit-on-first-error=yes', '--track-origins=no', '--leak-check=no'])],
 )
